@@ -137,6 +137,7 @@ async fn history_case(out: &mut Out, rng: &mut Rng) {
     // a final flush of whatever a failed flush left in the buffer, then once more
     p.flush(out).await;
     p.rec(out).await.ok();
+    p.man(out);
     exact_oracle(out, &p, &all, "end of history").await;
     if let Some(msg) = &p.panicked {
         out.violation("C13:compaction:panic", &format!("Compactor::compact panicked: {}", msg), json!({"workload": p.text}));
